@@ -200,7 +200,11 @@ class InterpBase:
       seq = VSeq(arr, n, kind)
       if ty.startswith('seq['):
         return seq
-      return VMList(seq, is_deque=ty.startswith('deque['))
+      d = VMList(seq, is_deque=ty.startswith('deque['))
+      if d.is_deque:       # some deque: unbounded (-1) or bounded by a capacity it respects
+        d.maxlen = z3.Int(self.path.fresh_name(name + '.maxlen'))
+        self.assume(z3.And(d.maxlen >= -1, z3.Or(d.maxlen == -1, n <= d.maxlen)))
+      return d
     if ty.startswith('iter['):
       kind = ty[5:-1]
       src = self.fresh(f'seq[{kind}]', name + '.src')
@@ -221,6 +225,7 @@ class InterpBase:
       m.is_counter = True
       kk = z3.Const(self.path.fresh_name('k'), m.ksort)
       self.assume(z3.ForAll([kk], z3.Implies(z3.Select(m.has, kk), z3.Select(m.val, kk) >= 0)))
+      self.assume((m.size == 0) == z3.ForAll([kk], z3.Not(z3.Select(m.has, kk))))      # cardinality fact: empty <=> no key
       return m
     if ty.startswith('omap['):
       k, v = _split_top(ty[5:-1])
